@@ -1,16 +1,59 @@
 /-
-C10 — property theorems (only). Model: `HydroVerif/Model/C10.lean`; helper lemmas and the specification
-vocabulary (`ps`, `rowScore`, `wm`, `wmF`, `wmU`, `wmRanks`, `PairOK`, `PerfectOrder`, `cvmTextbook`, `adTextbook`,
-`SortsAscending` …) in `Lemmas/C10Scan.lean, C10WM.lean, C10Rank.lean, C10Ranks2.lean, C10Real.lean, C10Unif.lean`.
+C10 — property theorems (only). Model: `HydroVerif/Model/C10.lean` (+ `Generated/CvmTable.lean`, regenerated from the
+shipped archive at every run); helper lemmas and the specification vocabulary (`ps`, `rowScore`, `wm`, `wmF`, `wmU`,
+`wmRanks`, `PairOK`, `RanksOK`, `PerfectOrder`, `ValidRanking`, `cvmTextbook`, `adTextbook`, `SortsAscending`, `ADSorts` …)
+in `Lemmas/C10Scan, C10WM, C10Rank, C10Ranks2, C10Real, C10Unif, C10Sort, C10Table, C10Audit`.
 
 `α` is any linearly ordered field (ℝ where a square root or a logarithm is involved). `sort` stands for glibc
 `qsort` / `np.sort`; what is assumed of it is spelled out in `PairOK` (stable, by the tolerant comparator),
-`SortsAscending` and `ADSorts`. `eps` is the tie tolerance given to `c_ensrank`, `ceps` the one compiled into its
-comparator (1e-8): values are assumed pairwise tied or separated by more than both (`Separated`).
+`SortsAscending` and `ADSorts`, and `List.mergeSort` (the driver's sort) is proved to meet it. `eps` is the tie
+tolerance given to `c_ensrank`, `ceps` the one compiled into its comparator (1e-8): values are assumed pairwise tied or
+separated by more than both (`Separated`). Every model function named below is executed by the driver and compared
+with the real code in harness/c10.py.
+
+CLAUSE → THEOREMS (→ what stays outside)
+ 1. "the discrimination score lies in [0, 1]"
+      `dscore_range` (no hypothesis), `dscoreOf_none_iff`: D is NaN exactly when a rank vector is constant
+      → known finding dscore/constant_forecast_ranks/nan (every forecast ties: D = NaN, not in [0, 1]).
+ 2. "equals 1 when forecasts order the observations perfectly and 0 when they order them inversely"
+      `dscore_perfect`, `dscore_inverse` (n ≥ 2 distinct observations, every m ≥ 1).
+ 3. "unchanged by any strictly increasing re-scaling of the observations"
+      `dscore_obs_map_invariant` (stable ranks, no hypothesis); `dscore_any_argsort`,
+      `dscore_obs_map_invariant_any_argsort`: for distinct observations ANY ordinal ranking may stand for numpy's argsort
+      → for tied observations numpy's tie-breaking is external (oracle on the real code).
+ 4. "… or of all forecast values and by permuting ensemble members"
+      `dscore_forecast_map_invariant`, `dscore_member_perm_invariant`; kernel level `ensrank_strictMono_invariant`,
+      `ensrank_member_perm_invariant`, `fpair_strictMono_invariant`, `fpair_member_perm_invariant`.
+ 5. "the ensemble ranks behind it equal the pairwise mid-rank comparison of Weigel and Mason (2011)"
+      `scan_eq_pooled_midranks`, `fpair_eq_weigel_mason`, `wmF_range`, `ensrank_eq_weigel_mason`, `ensrank_rejects_iff`,
+      `franks_eq_weigel_mason` (m = 1 branch included), `dscore_eq_rank_correlation`; sort hypothesis discharged for
+      `List.mergeSort` by `mergeSort_pairOK`, `fpair_mergeSort_eq_weigel_mason`
+      → glibc qsort's stability is an assumption (PairOK).
+ 6. "PIT values lie in [0, 1]"
+      `pitRandom_range` (every cst), `pitRank_range`.
+ 7. "… and increase strictly with the number of ensemble members lying below the observation"
+      `pit_strictMono_count` (in the count the code uses), `pit_count_bounds`, `pitRandom_eq_count`,
+      `pitRandom_strictMono_members_below` (in the TRUE count, for any jitter within EPS and members not within 2 EPS of
+      the observation), `pitRank_strictMono_count`
+      → IEEE rounding of value + jitter (executed, not proved).
+ 8. "the pseudo-PIT flag is raised exactly when the observation and at least one member are at or below the
+     censoring threshold"
+      `isSudo_iff`; glue in front of pit / alpha: `checkEnsemble_spec`, `checkEnsemble_complete`
+      → known finding pit/pseudo_flag/eps_absorbed_at_large_threshold (floating point: censor + 1e-10 = censor from 1.7e6).
+ 9. "the Cramer-von Mises and Anderson-Darling statistics computed from values in [0, 1] equal their textbook
+     formulas whatever the order of the data"
+      `cvm_eq_textbook`, `cvm_perm_invariant`, `ad_eq_textbook`, `ad_perm_invariant` (sample in the open interval).
+10. "their p-values (and those of alpha) lie in [0, 1]"
+      `interp_range`, `cvm_pvalue_range`, `cvm_pvalue_defined` (no table hypothesis), `ad_pvalue_range`,
+      `alpha_cv_pvalue_range`, `alpha_ad_accepts`, `pvalue_range_partial`
+      → `pvalue_range_statement`: scipy's kstest p-value (alpha type KS) is outside the model (oracle only).
+11. "data outside [0, 1] are rejected by the Anderson-Darling test"
+      `ad_rejects_iff` (NaN included; nothing else is rejected).
 -/
 import HydroVerif.Lemmas.C10Unif
 import HydroVerif.Lemmas.C10Sort
 import HydroVerif.Lemmas.C10Table
+import HydroVerif.Lemmas.C10Audit
 
 set_option linter.unusedSectionVars false
 set_option linter.unusedVariables false
@@ -170,6 +213,67 @@ theorem pit_strictMono_count (cst : α) (nens cnt cnt' : ℕ) (h : cnt < cnt') :
   apply div_lt_div_of_pos_right _ hden
   linarith
 
+/-- the jitter (observation and members each moved by at most `e`, the code's EPS) cannot reorder values further
+than `2e` apart: the count the code uses lies between the members certainly below (`< obs - 2e`) and possibly below
+(`≤ obs + 2e`) the observation -/
+theorem pit_count_bounds (e obs dobs : α) (ens dens : List α) (hd : |dobs| ≤ e)
+    (hlen : dens.length = ens.length) (hdens : ∀ d ∈ dens, |d| ≤ e) :
+    (ens.filter fun a => decide (a < obs - 2 * e)).length ≤ belowJit obs dobs ens dens ∧
+      belowJit obs dobs ens dens ≤ (ens.filter fun a => decide (a ≤ obs + 2 * e)).length :=
+  belowJit_bounds e obs dobs hd ens dens hlen hdens
+
+/-- when no member is within `2e` of the observation the PIT is the plotting position of the TRUE number of members
+below the observation, whatever the jitter -/
+theorem pitRandom_eq_count (e cst obs dobs : α) (ens dens : List α) (hd : |dobs| ≤ e)
+    (hlen : dens.length = ens.length) (hdens : ∀ d ∈ dens, |d| ≤ e) (hsep : ∀ a ∈ ens, 2 * e < |a - obs|) :
+    pitRandom cst obs dobs ens dens
+      = pitFormula (clampCst cst) (ens.filter fun a => decide (a < obs)).length ens.length := by
+  have he : 0 ≤ e := le_trans (abs_nonneg _) hd
+  have hb := belowJit_bounds e obs dobs hd ens dens hlen hdens
+  have h1 : (ens.filter fun a => decide (a < obs - 2 * e)) = ens.filter fun a => decide (a < obs) := by
+    apply List.filter_congr
+    intro a ha
+    have := hsep a ha
+    rcases lt_or_ge (a - obs) 0 with hn | hp
+    · rw [abs_of_neg hn] at this
+      have c1 : a < obs - 2 * e := by linarith
+      have c2 : a < obs := by linarith
+      simp [c1, c2]
+    · rw [abs_of_nonneg hp] at this
+      have c1 : ¬ a < obs - 2 * e := by linarith
+      have c2 : ¬ a < obs := by linarith
+      simp [c1, c2]
+  have h2 : (ens.filter fun a => decide (a ≤ obs + 2 * e)) = ens.filter fun a => decide (a < obs) := by
+    apply List.filter_congr
+    intro a ha
+    have := hsep a ha
+    rcases lt_or_ge (a - obs) 0 with hn | hp
+    · rw [abs_of_neg hn] at this
+      have c1 : a ≤ obs + 2 * e := by linarith
+      have c2 : a < obs := by linarith
+      simp [c1, c2]
+    · rw [abs_of_nonneg hp] at this
+      have c1 : ¬ a ≤ obs + 2 * e := by linarith
+      have c2 : ¬ a < obs := by linarith
+      simp [c1, c2]
+  rw [h1, h2] at hb
+  unfold pitRandom
+  rw [le_antisymm hb.2 hb.1]
+
+/-- hence, between two forecasts with the same number of members, the PIT increases strictly with the number of
+members lying below the observation -/
+theorem pitRandom_strictMono_members_below (e cst : α) (obs dobs obs' dobs' : α) (ens dens ens' dens' : List α)
+    (hm : ens.length = ens'.length)
+    (hd : |dobs| ≤ e) (hlen : dens.length = ens.length) (hdens : ∀ d ∈ dens, |d| ≤ e)
+    (hsep : ∀ a ∈ ens, 2 * e < |a - obs|)
+    (hd' : |dobs'| ≤ e) (hlen' : dens'.length = ens'.length) (hdens' : ∀ d ∈ dens', |d| ≤ e)
+    (hsep' : ∀ a ∈ ens', 2 * e < |a - obs'|)
+    (hcnt : (ens.filter fun a => decide (a < obs)).length < (ens'.filter fun a => decide (a < obs')).length) :
+    pitRandom cst obs dobs ens dens < pitRandom cst obs' dobs' ens' dens' := by
+  rw [pitRandom_eq_count e cst obs dobs ens dens hd hlen hdens hsep,
+    pitRandom_eq_count e cst obs' dobs' ens' dens' hd' hlen' hdens' hsep', hm]
+  exact pit_strictMono_count cst _ _ _ hcnt
+
 /-- the non-random branch (`percentileofscore(kind="rank")/100`) lies in [0, 1] … -/
 theorem pitRank_range (obs : α) (ens : List α) (hne : ens ≠ []) :
     0 ≤ pitRank obs ens ∧ pitRank obs ens ≤ 1 := by
@@ -226,6 +330,47 @@ theorem isSudo_iff (eps censor obs : α) (ens : List α) :
     apply List.ne_nil_of_mem (a := a)
     rw [List.mem_filter]
     exact ⟨ha, by simpa using hlt⟩
+
+/-! ## 2b. `__check_ensemble_data`, the filter in front of `pit` and `alpha` -/
+
+/-- the forecasts kept are exactly those whose observation is present and that have at least one member present,
+in order -/
+theorem checkEnsemble_spec {β : Type} (obs : List (Option β)) (ens : List (List (Option β)))
+    (k : List (β × List (Option β))) (h : checkEnsemble obs ens = .ok k) :
+    ens.length = obs.length ∧ k ≠ [] ∧
+      k = (obs.zip ens).filterMap fun p =>
+        match p.1 with
+        | some o => if p.2.any Option.isSome then some (o, p.2) else none
+        | none => none := by
+  unfold checkEnsemble at h
+  by_cases h1 : ens.length ≠ obs.length
+  · rw [if_pos h1] at h; cases h
+  · rw [if_neg h1] at h
+    simp only at h
+    by_cases h2 : (keepRows obs ens).isEmpty
+    · rw [if_pos h2] at h; cases h
+    · rw [if_neg h2] at h
+      injection h with h
+      refine ⟨not_not.mp h1, ?_, by rw [← h]; exact keepRows_spec obs ens⟩
+      rw [← h]; simpa using h2
+
+/-- complete data (no NaN, `n ≥ 1` forecasts of `m ≥ 1` members) pass unchanged: the filter does not interfere
+inside the property's quantifier -/
+theorem checkEnsemble_complete {β : Type} (os : List β) (rows : List (List β)) (hlen : rows.length = os.length)
+    (hos : os ≠ []) (hne : ∀ r ∈ rows, r ≠ []) :
+    checkEnsemble (os.map some) (rows.map fun r => r.map some)
+      = .ok (os.zip (rows.map fun r => r.map some)) := by
+  unfold checkEnsemble
+  rw [if_neg (by simp [hlen]), keepRows_complete os rows hlen hne]
+  have : ¬ (os.zip (rows.map fun r => r.map some)).isEmpty := by
+    cases os with
+    | nil => exact absurd rfl hos
+    | cons o os' =>
+      cases rows with
+      | nil => simp at hlen
+      | cons r rs => simp
+  simp only
+  rw [if_neg this]
 
 /-! ## 3. Cramer-von Mises statistic -/
 
@@ -384,6 +529,36 @@ theorem dscore_member_perm_invariant (sort : List (ℝ × ℕ) → List (ℝ × 
   rw [dscore_eq_rank_correlation sort epsmin eps ceps m _ _ h,
     dscore_eq_rank_correlation sort epsmin eps ceps m _ _ h', wmRanks_perm hp]
 
+/-- `np.argsort` is external and its tie-breaking unspecified; for pairwise distinct observations this cannot
+matter: with ANY ordinal ranking of the observations (`ValidRanking`) in place of `np.argsort(np.argsort(obs))`
+the score is the one of the model -/
+theorem dscore_any_argsort (sort : List (ℝ × ℕ) → List (ℝ × ℕ)) (epsmin eps : ℝ) (m : ℕ) (obs : List ℝ)
+    (hnd : obs.Nodup) (r : List ℕ) (hr : ValidRanking obs r) (rows : List (List ℝ)) :
+    dscoreWith sort epsmin eps m r rows = dscore sort epsmin eps m obs rows := by
+  unfold dscore
+  rw [validRanking_unique obs hnd r hr]
+
+/-- … and the invariance under a strictly increasing re-scaling of distinct observations holds for any two such
+rankings, before and after the map -/
+theorem dscore_obs_map_invariant_any_argsort (sort : List (ℝ × ℕ) → List (ℝ × ℕ)) (epsmin eps : ℝ) (m : ℕ)
+    (f : ℝ → ℝ) (hf : StrictMono f) (obs : List ℝ) (hnd : obs.Nodup) (r r' : List ℕ)
+    (hr : ValidRanking obs r) (hr' : ValidRanking (obs.map f) r') (rows : List (List ℝ)) :
+    dscoreWith sort epsmin eps m r' rows = dscoreWith sort epsmin eps m r rows := by
+  rw [dscore_any_argsort sort epsmin eps m obs hnd r hr rows,
+    dscore_any_argsort sort epsmin eps m (obs.map f) (hnd.map hf.injective) r' hr' rows,
+    dscore_obs_map_invariant sort epsmin eps m f hf obs rows]
+
+/-! ## 5b. alpha (ℝ) -/
+
+/-- `alpha(type="CV")`: the p-value is defined and lies in [0, 1], whatever the forecasts and the jitter -/
+theorem alpha_cv_pvalue_range (sort : List ℝ → List ℝ) (cst0 : ℝ) (obs dobs : List ℝ) (ens dens : List (List ℝ)) :
+    ∃ v, (alphaCV sort cst0 obs dobs ens dens).2 = some v ∧ 0 ≤ v ∧ v ≤ 1 := by
+  unfold alphaCV
+  simp only
+  obtain ⟨v, hv⟩ := cvm_pvalue_defined (α := ℝ) (pitRandomAll cst0 obs dobs ens dens).length
+    (cvmStat sort (pitRandomAll cst0 obs dobs ens dens))
+  exact ⟨v, hv, cvm_pvalue_range _ _ v hv⟩
+
 /-! ## 6. Anderson-Darling statistic (ℝ) -/
 
 /-- data outside [0, 1] or NaN are rejected, and nothing else is -/
@@ -455,6 +630,24 @@ value of the statistic (the code clamps Marsaglia's approximation `1 - AD(n, z)`
 theorem ad_pvalue_range (n : ℕ) (stat : ℝ) : 0 ≤ adPvalue n stat ∧ adPvalue n stat ≤ 1 :=
   clamp01_range _
 
+/-- `alpha(type="AD")`: the PIT series of the random branch lies strictly inside (0, 1) (`pit`'s default
+plotting constant is below ½), so the Anderson-Darling test never rejects it, and its p-value lies in [0, 1] -/
+theorem alpha_ad_accepts (sort : List (Option ℝ) → List (Option ℝ)) (hs : ADSorts sort) (prev0 cst0 : ℝ)
+    (hprev : prev0 ≤ 0) (hc : cst0 < 1 / 2) (obs dobs : List ℝ) (ens dens : List (List ℝ)) :
+    ∃ s p, alphaAD sort prev0 cst0 obs dobs ens dens = .ok (s, p) ∧ 0 ≤ p ∧ p ≤ 1 := by
+  unfold alphaAD
+  simp only
+  set pits := pitRandomAll cst0 obs dobs ens dens with hp
+  have hopen := pitRandomAll_open cst0 hc obs dobs ens dens
+  cases hres : adTest sort prev0 (pits.map some) with
+  | ok s => exact ⟨s, adPvalue pits.length s, rfl, ad_pvalue_range _ _⟩
+  | error e =>
+    exfalso
+    obtain ⟨x, hx, hb⟩ := (ad_rejects_iff sort hs prev0 hprev (pits.map some)).mp ⟨e, hres⟩
+    obtain ⟨v, hv, rfl⟩ := List.mem_map.mp hx
+    have := hopen v hv
+    rcases hb with hb | hb <;> linarith [this.1, this.2]
+
 /-- FULL p-value clause of the property ("the p-values of the Cramer-von Mises and Anderson-Darling tests and of
 alpha lie in [0, 1]"): alpha returns the Cramer-von Mises, the Anderson-Darling or scipy's Kolmogorov-Smirnov
 p-value of the PIT series. `ks` stands for `scipy.stats.kstest(pits, "uniform").pvalue`, which is outside the model;
@@ -504,6 +697,15 @@ example : RanksOK (fun _ => [((1 : ℚ), 0), (1, 2), (2, 3), (3, 1)]) (1 / 10 ^ 
   · unfold Separated; decide +kernel
   · unfold pool; decide +kernel
   · unfold cmpTol; decide +kernel
+
+/-- an ordinal ranking of three distinct observations -/
+example : ValidRanking [(3 : ℚ), 1, 2] [2, 0, 1] := by
+  unfold ValidRanking; decide +kernel
+
+/-- jitter within `e` and members further than `2e` from the observation (hypotheses of `pitRandom_eq_count`) -/
+example : |(1 / 20 : ℚ)| ≤ 1 / 10 ∧ (∀ d ∈ [(-1 / 10 : ℚ), 1 / 10], |d| ≤ 1 / 10) ∧
+    (∀ a ∈ [(0 : ℚ), 2], 2 * (1 / 10) < |a - 1|) := by
+  decide +kernel
 
 /-- `List.mergeSort` (the sort of the model driver) sorts ascending -/
 example : SortsAscending fun l : List ℚ => l.mergeSort fun a b => decide (a ≤ b) := by
